@@ -3,7 +3,8 @@
 Never run by a check. Every entry is re-validated at check time by the independent reference (pyref), so a wrong
 entry can only cause a visible failure of that validation, never a silent pass.
 
-usage: mk_corpus.py omega | chains | ct0 | seeds3 | all
+usage: mk_corpus.py omega | chains | ct0 | seeds3 | all | vlong
+  vlong   c05_very_long_chains.json  (crafted key, message, expected signature) needing more than 1000 rejections
   omega   c03_exact_omega.json     specification-valid signatures with EXACTLY omega hints, every set (crate signer as the
                                    search engine, pyref.verify as the judge)
   chains  c05_long_chains.json     (crafted secret key, message) pairs whose signing needs so many rejections that the
@@ -85,6 +86,36 @@ def chains_one(cp):
     return out[:2]
 
 
+def vlong_one(cp):
+    """(crafted key, message) pairs needing more than 1000 rejections (beyond any 'reasonable' iteration cap such as the 814 of
+    FIPS 204 appendix C); the expected signature is stored (the reference needs ~10 s per entry)"""
+    p = Par(cp)
+    rng = random.Random("vlong" + cp)
+    pk, sk = keygen(cp, bytes(rng.randrange(256) for _ in range(32)))
+    prev = [e for e in json.load(open(os.path.join(CORPUS, "c05_long_chains.json"))) if e["set"] == cp]
+    f = min(1.0, (prev[0]["fraction"] if prev else 0.5) + 0.08)
+    out = []
+    for it in range(40):
+        csk = crafted(p, sk, rng, f)
+        lens = []
+        for i in range(2):
+            m = bytes(rng.randrange(256) for _ in range(rng.randrange(1, 40)))
+            r = pyref.sign(p, csk, m, max_attempts=6000, want_trace=True)
+            lens.append(None if r is None else len(r[1]))
+            if r is not None and len(r[1]) >= 1000:
+                got = crate([("signature", cp, [bytes(p.sig), m, csk, 0, b""])])[0]
+                assert got is not None and got[0] == r[0], "crate and reference disagree on a very long chain"
+                out.append({"set": cp, "sk": csk.hex(), "msg": m.hex(), "rejections": len(r[1]), "fraction": round(f, 3), "sig": r[0].hex()})
+        print(cp, "f=%.3f" % f, lens, flush=True)
+        if out:
+            break
+        if all(x is None for x in lens):
+            f = max(0.05, f - 0.02)
+        elif max(x for x in lens if x is not None) < 1000:
+            f = min(1.0, f + 0.03)
+    return out[:1]
+
+
 def ct0_one(cp):
     p = Par(cp)
     rng = random.Random("ct0" + cp)
@@ -133,6 +164,8 @@ def main():
             save("c03_exact_omega.json", [e for part in ex.map(omega_one, ALL) for e in part])
         if what in ("chains", "all"):
             save("c05_long_chains.json", [e for part in ex.map(chains_one, ALL) for e in part])
+        if what in ("vlong",):
+            save("c05_very_long_chains.json", [e for part in ex.map(vlong_one, ALL) for e in part])
         if what in ("ct0", "all"):
             save("c05_ct0_rejections.json", [e for part in ex.map(ct0_one, [cp for cp in ALL if Par(cp).g2 == 95232]) for e in part])
         if what in ("seeds3", "all"):
